@@ -133,7 +133,8 @@ def raw_case(draw):
     if route == "from_arrays2d":
         V = [[v[0], v[1], 0.0] for v in V]
     prefill = bool(F) and draw(st.integers(0, 3)) == 0
-    return {"kind": kind, "V": V, "E": E, "F": F, "C": C, "attrs": attrs, "form": form, "route": route, "prefill_corners": prefill,
+    int_vertices = draw(st.integers(0, 3)) == 0     # integral coordinates handed over as python ints / int64 rows
+    return {"kind": kind, "V": V, "E": E, "F": F, "C": C, "attrs": attrs, "form": form, "route": route, "prefill_corners": prefill, "int_vertices": int_vertices,
             "complete_edges": complete_edges, "complete_faces": complete_faces, "manifold": manifold}
 
 
@@ -171,12 +172,14 @@ def build_raw(case, form=None):
     form = form or case["form"]
     conv = {"list": list, "tuple": tuple, "numpy": lambda r: np.array(r)}[form]
     raw = RawMeshData()
+    integral = case.get("int_vertices") and all(float(x).is_integer() and abs(x) < 2 ** 31 for v in case["V"] for x in v)
+    Vsrc = [[int(x) for x in v] for v in case["V"]] if integral else case["V"]
     if form == "numpy":
-        raw.vertices += [np.array(v, dtype=float) for v in case["V"]]
+        raw.vertices += [np.array(v, dtype=(np.int64 if integral else float)) for v in Vsrc]
     elif form == "tuple":
-        raw.vertices += [tuple(v) for v in case["V"]]
+        raw.vertices += [tuple(v) for v in Vsrc]
     else:
-        raw.vertices += [list(v) for v in case["V"]]
+        raw.vertices += [list(v) for v in Vsrc]
     raw.edges += [conv(e) for e in case["E"]]
     raw.faces += [conv(f) for f in case["F"]]
     raw.cells += [conv(c) for c in case["C"]]
@@ -210,7 +213,12 @@ def construct(case, ctx, form=None):
         if case["E"]: kw["E"] = np.array(case["E"])
         if case["F"]: kw["F"] = np.array(case["F"])
         if case["C"]: kw["C"] = np.array(case["C"])
-        return ctx.call("construct:from_arrays", from_arrays, Va, **kw)
+        snap = {k: v.copy() for k, v in dict(kw, V=Va).items()}
+        ok, m = ctx.call("construct:from_arrays", from_arrays, Va, **kw)
+        for k, v in dict(kw, V=Va).items():
+            ctx.check(v.shape == snap[k].shape and v.dtype == snap[k].dtype and np.array_equal(v, snap[k]), "construct:argument-changed",
+                      f"from_arrays changed the array passed as {k}")
+        return ok, m
     raw = build_raw(case, form)
     if route == "instanciate":
         return ctx.call("construct:instanciate", _instanciate_raw_mesh_data, raw)
@@ -416,6 +424,7 @@ def fn(case, ctx):
     inv_attr = any(str(i) in a["values"] for a in case["attrs"] for i in invalid)
     if invalid: ctx.label("invalid-edges")
     if case.get("prefill_corners"): ctx.label("prefilled-face-corners")
+    if case.get("int_vertices") and all(float(x).is_integer() for v in case["V"] for x in v): ctx.label("int-typed-vertices")
     if inv_attr: ctx.label("invalid-edge-with-attribute")
     shared = False
     if case["C"]:
